@@ -1873,3 +1873,195 @@ Proof.
   - intros t c0 _. apply Hset. reflexivity.
   - apply HG. exists sc. reflexivity.
 Qed.
+
+(* ---------- the DestroyContainer obligation as a decidable condition on the programs ---------- *)
+Definition is_dc (o : op) : bool := match o with DestroyContainer => true | _ => false end.
+Definition dcp_prog (p : list op) : nat := length (filter is_dc p).
+Definition nocount (p : list op) : bool := forallb (fun o => negb (counted o)) p.
+(* nothing but Drop after the (first) DestroyContainer of a thread *)
+Fixpoint tail_ok (p : list op) : bool :=
+  match p with
+  | [] => true
+  | DestroyContainer :: r => nocount r
+  | _ :: r => tail_ok r
+  end.
+(* at most one DestroyContainer in all the programs, and the thread that issues it only drops references afterwards *)
+Definition dc_wf (progs : list (list op)) : bool :=
+  (list_sum (map dcp_prog progs) <=? 1) && forallb tail_ok progs.
+
+Definition gate_i (i : instr) : nat :=
+  match i with IDcGate => 1 | IInvoke DestroyContainer => 1 | _ => 0 end.
+Definition gates (st : list instr) : nat := list_sum (map gate_i st).
+Definition dcs (l : loc) : nat := dcp_prog (prog l) + gates (stk l).
+(* on a stack the gate is directly followed by the end of its operation *)
+Fixpoint gshape (st : list instr) : bool :=
+  match st with
+  | [] => true
+  | IDcGate :: r => match r with IEndOp true :: r' => gshape r' | _ => false end
+  | _ :: r => gshape r
+  end.
+Record InvW (g : glob) (ls : list loc) : Prop := {
+  W_one : list_sum (map dcs ls) <= 1;
+  W_tail : forall u l, nth_error ls u = Some l -> tail_ok (prog l) = true;
+  W_gate : forall u l, nth_error ls u = Some l -> gates (stk l) >= 1 -> nocount (prog l) = true;
+  W_shape : forall u l, nth_error ls u = Some l -> gshape (stk l) = true;
+  W_stk : forall u l, nth_error ls u = Some l -> wstk (stk l) <= 1
+}.
+
+Lemma gates_app a b : gates (a ++ b) = gates a + gates b.
+Proof. unfold gates. rewrite map_app, list_sum_app. reflexivity. Qed.
+Lemma nocount_tail p : nocount p = true -> tail_ok p = true /\ dcp_prog p = 0.
+Proof.
+  induction p as [|o p IH]; [auto|]. cbn [nocount forallb]. intros H. apply andb_true_iff in H as [H1 H2].
+  destruct (IH H2) as [A B]. destruct o; cbn in H1; try discriminate. cbn. auto.
+Qed.
+Lemma gshape_nogate push st : gates push = 0 -> gshape (push ++ st) = gshape st.
+Proof.
+  induction push as [|j push IH]; [reflexivity|]. unfold gates. cbn [map]. rewrite list_sum_cons. intros H.
+  assert (gate_i j = 0 /\ gates push = 0) as [A B] by (unfold gates; lia).
+  cbn [app]. destruct j; cbn [gate_i] in A; try discriminate; cbn [gshape]; apply IH; exact B.
+Qed.
+
+(* what an instruction pushes: no gate, except the invocation of DestroyContainer *)
+Lemma reenter_gates g m g' push : reenter g m = (g', push) -> gates push = 0 /\ wstk push = 0.
+Proof.
+  unfold reenter, new_obj. destruct (cstate g =? 2); [intros H; inversion H; auto|].
+  destruct m as [|[|[|[|[|m]]]]]; intros H; inversion H; subst; auto.
+Qed.
+Lemma invoke_gates g o g' push : invoke g o = (g', push) ->
+  wstk push <= wop (IInvoke o) /\ (gates push = 0 \/ (o = DestroyContainer /\ push = [IDcGate; IEndOp true])).
+Proof.
+  unfold invoke, new_obj. destruct o; destruct (negb (cstate g =? 0));
+    repeat match goal with
+           | |- context [if ?x then _ else _] => destruct x
+           | |- context [match ?x with _ => _ end] => destruct x
+           end; intros H; inversion H; subst; cbn; auto.
+Qed.
+Lemma exec_gates t c g r i g' r' push es : exec t c g r i = Some (g', r', push, es) ->
+  wstk push <= wop i /\ (gates push = 0 \/ (i = IInvoke DestroyContainer /\ push = [IDcGate; IEndOp true])).
+Proof.
+  intros Hx. destruct i; norm_exec Hx.
+  all: try (solve [
+    repeat match type of Hx with
+           | context [if ?x then _ else _] => destruct x eqn:?
+           | context [match ?x with _ => _ end] => destruct x eqn:?
+           end; try discriminate;
+    inversion Hx; subst; clear Hx; cbn; (split; [lia|left; reflexivity]) ]).
+  - destruct (invoke g o) as [g1 push1] eqn:IV. inversion Hx; subst. destruct (invoke_gates _ _ _ _ IV) as [A [B|[B1 B2]]].
+    + split; [exact A|left; exact B].
+    + split; [exact A|right; subst; auto].
+  - destruct (memn (ncb g) (throws (cf g))); [inversion Hx; subst; cbn; split; [lia|left; reflexivity]|].
+    destruct (reenter _ _) as [g2 push2] eqn:RE. inversion Hx; subst. destruct (reenter_gates _ _ _ _ RE) as [A B].
+    rewrite gates_app, wstk_app, A, B. destruct rest; cbn; split; (lia || (left; reflexivity)).
+  - destruct (src <? 2); [|inversion Hx; subst; cbn; split; [lia|left; reflexivity]].
+    destruct (reenter _ _) as [g2 push2] eqn:RE. inversion Hx; subst. destruct (reenter_gates _ _ _ _ RE) as [A B].
+    rewrite A, B. split; [lia|left; reflexivity].
+Qed.
+
+Lemma dcs_eq l : dcs l = dcp_prog (prog l) + gates (stk l).
+Proof. reflexivity. Qed.
+Lemma gates_cons i st : gates (i :: st) = gate_i i + gates st.
+Proof. reflexivity. Qed.
+Lemma gshape_tail i st : gshape (i :: st) = true -> gshape st = true.
+Proof.
+  destruct i; cbn [gshape]; auto. destruct st as [|j st]; [discriminate|]. destruct j; try discriminate.
+  destruct cd; [|discriminate]. cbn [gshape]. auto.
+Qed.
+
+Lemma InvW_step g ls t c l g' l' es :
+  InvW g ls -> nth_error ls t = Some l -> tstep t c g l = Some (g', l', es) -> InvW g' (upd ls t l').
+Proof.
+  apply (P_step InvW).
+  - intros g0 ls0 t0 l0 i st c0 g1 r1 push es0 [W1 W2 W3 W4 W5] Hl Hs Hx.
+    destruct (exec_gates _ _ _ _ _ _ _ _ _ Hx) as [EW EG].
+    set (l1 := Loc (prog l0) (push ++ st) r1).
+    assert (GL : gates (push ++ st) <= gates (i :: st)).
+    { rewrite gates_app, gates_cons. destruct EG as [E|[-> ->]]; [lia|cbn; lia]. }
+    assert (SH : gshape (push ++ st) = true).
+    { pose proof (W4 t0 l0 Hl) as S0. rewrite Hs in S0. destruct EG as [E|[-> ->]].
+      - rewrite (gshape_nogate _ _ E). apply (gshape_tail _ _ S0).
+      - cbn [app gshape]. apply (gshape_tail _ _ S0). }
+    assert (WS : wstk (push ++ st) <= 1).
+    { pose proof (W5 t0 l0 Hl) as S0. rewrite Hs, wstk_cons in S0. rewrite wstk_app. lia. }
+    constructor.
+    + pose proof (sum_upd dcs ls0 t0 l0 l1 Hl) as SU. rewrite (dcs_eq l0), (dcs_eq l1) in SU. change (stk l1) with (push ++ st) in SU. change (prog l1) with (prog l0) in SU. rewrite Hs in SU. lia.
+    + intros u x Hu. destruct (nth_upd _ _ _ _ _ Hu) as [[_ [-> _]]|[_ Hu']]; [apply (W2 t0 l0 Hl)|apply (W2 u x Hu')].
+    + intros u x Hu. destruct (nth_upd _ _ _ _ _ Hu) as [[_ [-> _]]|[_ Hu']]; [|apply (W3 u x Hu')].
+      cbn [stk prog l1]. intros G1. apply (W3 t0 l0 Hl). rewrite Hs. lia.
+    + intros u x Hu. destruct (nth_upd _ _ _ _ _ Hu) as [[_ [-> _]]|[_ Hu']]; [exact SH|apply (W4 u x Hu')].
+    + intros u x Hu. destruct (nth_upd _ _ _ _ _ Hu) as [[_ [-> _]]|[_ Hu']]; [exact WS|apply (W5 u x Hu')].
+  - intros g0 ls0 t0 l0 o p [W1 W2 W3 W4 W5] Hl Hs Hp.
+    set (l1 := Loc p [IInvoke o] (rv l0)).
+    pose proof (W2 t0 l0 Hl) as T0. rewrite Hp in T0.
+    assert (TP : tail_ok p = true /\ (is_dc o = true -> nocount p = true)).
+    { destruct o; cbn [tail_ok is_dc] in *; split; auto; try discriminate. apply (nocount_tail p T0). }
+    constructor.
+    + pose proof (sum_upd dcs ls0 t0 l0 l1 Hl) as SU. rewrite (dcs_eq l0), (dcs_eq l1) in SU. change (stk l1) with [IInvoke o] in SU. change (prog l1) with p in SU. rewrite Hs, Hp in SU.
+      unfold dcp_prog in SU. cbn [filter] in SU. unfold gates in SU. cbn [map list_sum fold_right] in SU.
+      destruct o; cbn [is_dc length gate_i] in SU; lia.
+    + intros u x Hu. destruct (nth_upd _ _ _ _ _ Hu) as [[_ [-> _]]|[_ Hu']]; [apply TP|apply (W2 u x Hu')].
+    + intros u x Hu. destruct (nth_upd _ _ _ _ _ Hu) as [[_ [-> _]]|[_ Hu']]; [|apply (W3 u x Hu')].
+      cbn [stk prog l1]. unfold gates. cbn [map list_sum fold_right]. intros G1. apply TP. destruct o; cbn in *; auto; lia.
+    + intros u x Hu. destruct (nth_upd _ _ _ _ _ Hu) as [[_ [-> _]]|[_ Hu']]; [reflexivity|apply (W4 u x Hu')].
+    + intros u x Hu. destruct (nth_upd _ _ _ _ _ Hu) as [[_ [-> _]]|[_ Hu']]; [|apply (W5 u x Hu')].
+      cbn [stk l1]. unfold wstk. cbn. destruct (counted o); lia.
+Qed.
+
+Lemma InvW_init c progs : dc_wf progs = true -> InvW (gl (init c progs)) (thr (init c progs)).
+Proof.
+  unfold dc_wf. intros H. apply andb_true_iff in H as [H1 H2]. apply Nat.leb_le in H1.
+  unfold init. cbn [gl thr].
+  assert (NE : forall u l, nth_error (map (fun p => Loc p [] 0%Z) progs) u = Some l -> exists p, In p progs /\ l = Loc p [] 0%Z).
+  { intros u l Hu. rewrite nth_error_map in Hu. destruct (nth_error progs u) as [p|] eqn:E; [|discriminate].
+    inversion Hu; subst. exists p. split; [eapply nth_error_In; eauto|reflexivity]. }
+  constructor.
+  - rewrite map_map. erewrite map_ext; [exact H1|]. intros p. rewrite dcs_eq. cbn [prog stk]. unfold gates. cbn [map list_sum fold_right]. lia.
+  - intros u l Hu. destruct (NE u l Hu) as [p [Hp ->]]. cbn [prog]. apply (proj1 (forallb_forall _ _) H2 p Hp).
+  - intros u l Hu. destruct (NE u l Hu) as [p [Hp ->]]. cbn. lia.
+  - intros u l Hu. destruct (NE u l Hu) as [p [Hp ->]]. reflexivity.
+  - intros u l Hu. destruct (NE u l Hu) as [p [Hp ->]]. cbn. lia.
+Qed.
+
+Lemma sum_ge2 {A} (f : A -> nat) ls t u l l' : t <> u -> nth_error ls t = Some l -> nth_error ls u = Some l' ->
+  f l + f l' <= list_sum (map f ls).
+Proof.
+  revert t u. induction ls as [|h r IH]; destruct t, u; cbn [nth_error map]; rewrite ?list_sum_cons; intros Hne H1 H2; try discriminate; try congruence.
+  - inversion H1; subst. pose proof (sum_upd f r u l' l' H2). assert (f l' <= list_sum (map f r)); [|lia].
+    clear -H2. revert u H2. induction r as [|h r IH]; destruct u; cbn [nth_error map]; rewrite ?list_sum_cons; intros H; try discriminate; [inversion H; lia|specialize (IH _ H); lia].
+  - inversion H2; subst. assert (f l <= list_sum (map f r)); [|lia].
+    clear -H1. revert t H1. induction r as [|h r IH]; destruct t; cbn [nth_error map]; rewrite ?list_sum_cons; intros H; try discriminate; [inversion H; lia|specialize (IH _ H); lia].
+  - assert (t <> u) by congruence. specialize (IH _ _ H H1 H2). lia.
+Qed.
+
+Lemma gates_in st : (exists st', st = IDcGate :: st') -> gates st >= 1.
+Proof. intros [st' ->]. rewrite gates_cons. cbn. lia. Qed.
+
+Lemma InvW_gate_ok s : InvW (gl s) (thr s) -> gate_ok s.
+Proof.
+  intros [W1 W2 W3 W4 W5] t l st Hl Hs.
+  assert (G1 : gates (stk l) >= 1) by (apply gates_in; eauto).
+  split.
+  - unfold wloc. pose proof (W3 t l Hl G1) as NC. pose proof (W4 t l Hl) as SH. pose proof (W5 t l Hl) as WS.
+    assert (filter counted (prog l) = []) as ->.
+    { clear -NC. induction (prog l) as [|o p IH]; [reflexivity|]. cbn in NC. apply andb_true_iff in NC as [A B].
+      cbn [filter]. destruct (counted o); [discriminate|]. apply IH, B. }
+    rewrite Hs in SH, WS |- *. cbn [gshape] in SH. destruct st as [|j st']; [discriminate|]. destruct j; try discriminate.
+    destruct cd; [|discriminate]. rewrite !wstk_cons in *. cbn [wop length] in *. lia.
+  - intros u l' Hne Hu Hg. pose proof (gates_in _ Hg) as G2.
+    pose proof (sum_ge2 dcs (thr s) t u l l' (not_eq_sym Hne) Hl Hu) as S2. unfold dcs in S2 at 1 2. lia.
+Qed.
+
+Lemma R_W c progs s : dc_wf progs = true -> R c progs s -> InvW (gl s) (thr s).
+Proof. intros Hw H. eapply reachable_inv; [apply InvW_step|apply (InvW_init c progs Hw)|exact H]. Qed.
+
+(* the client obligation stated on the programs: at most one DestroyContainer, followed only by Drop in its thread *)
+Lemma no_deadlock_wf c progs s : R c progs s -> dc_wf progs = true -> quiescent glob loc tstep s ->
+  all_fin glob loc fin s = true.
+Proof. intros HR Hw HQ. apply (no_deadlock c progs s HR HQ). apply InvW_gate_ok, (R_W c progs s Hw HR). Qed.
+
+Lemma eventually_finishes_wf c progs s : R c progs s -> dc_wf progs = true ->
+  exists sc, sched_ok any_choice sc /\ length sc <= mu s /\ all_fin glob loc fin (runD s sc) = true.
+Proof.
+  intros HR Hw. apply (eventually_finishes c progs s HR). intros s' Hs'.
+  apply InvW_gate_ok, (R_W c progs s' Hw). apply (reachable_trans glob loc tstep _ s _ HR Hs').
+Qed.
